@@ -48,7 +48,7 @@ func genCrash(g *gen, n int, tier string, w *bufio.Writer) {
 		fmt.Fprintf(w, "# case %d\n", c)
 		fmt.Fprintf(w, "cfg sync=%d mem=%d\n", sync, mem)
 		steps := 3 + g.intn(9)
-		manyTx := (c+c0)%16 == 9 && sync != 2 // a transaction of 150-220 entries totalling > 64 KB (more than the log buffer holds)
+		manyTx := (c+c0)%6 == 3 // a transaction of 150-220 entries totalling > 64 KB (more than the log buffer holds)
 		if manyTx {
 			fmt.Fprintln(w, join("w", "put", hx(g.engKey()), hx(g.bytesN(20))))
 			parts := []string{"w", "tx", "0"}
